@@ -1532,6 +1532,8 @@ class Models:
         if nm is None:
             return self.dyn_getattr(eng, st, obj, name, pos[2] if len(pos) > 2 else None, fx)
         out = []
+        if isinstance(obj, PClass) and obj.name in SENTINELS and len(pos) > 2:
+            return [Res("ok", st, pos[2])]          # the sentinel objects (MISSING, ...) carry no attributes
         for r in eng.getattr_(st, obj, nm, fx):
             if r.kind == "exc" and len(pos) > 2 and isinstance(r.val, PExc) and r.val.cls == "AttributeError":
                 out.append(Res("ok", r.st, pos[2]))
